@@ -5,6 +5,7 @@ from .. import common, textprops
 KINDS = ['str', 'uri', 'refdis', 'xstr']
 POS30 = ['cell', 'gridmeta', 'colmeta', 'list', 'dict', 'nested']
 POS20 = ['cell', 'gridmeta', 'colmeta']
+META = '\\"$`uU04Afn, :#'       # printable ASCII only: two feasible escape classes per character
 
 
 def matrix(tier):
@@ -21,6 +22,13 @@ def matrix(tier):
                 for pos in POS20:
                     for n in (1, min(nmax, 2)):
                         jobs.append(dict(fmt=fmt, kind=kind, position=pos, version='2.0', N=n, timeout=200 if tier == 'quick' else 1500))
+        # longer payloads over the metacharacter alphabet (2 feasible paths per character instead of ~10)
+        for kind in KINDS:
+            for n in ((4, 5, 6) if tier == 'quick' else (4, 5, 6, 7, 8)):
+                if fmt == 'json' and n != 6:
+                    continue
+                jobs.append(dict(fmt=fmt, kind=kind, position='cell' if n % 2 == 0 else 'nested', version='3.0', N=n, alphabet=META,
+                                 timeout=300 if tier == 'quick' else 1500))
         jobs.append(dict(fmt=fmt, kind='str', position='cell', version='3.0', N=min(nmax, 2), multi=True, timeout=300 if tier == 'quick' else 1500))
         jobs.append(dict(fmt=fmt, kind='uri', position='cell', version='3.0', N=1, multi=True, timeout=300))
     return jobs
@@ -31,7 +39,7 @@ def run(chk):
     if chk.only:
         jobs = [j for j in jobs if chk.only in textprops.job_name(j)]
     nmax = max(j['N'] for j in jobs)
-    chk.bounds = dict(payload_code_points='0..%d, each an unconstrained z3 Int in U+0000..U+10FFFF minus surrogates' % nmax,
+    chk.bounds = dict(payload_code_points='0..%d code points, each an unconstrained z3 Int in U+0000..U+10FFFF minus surrogates; plus 4..%d code points over the metacharacter alphabet %r' % (min(nmax, 3), nmax, META),
                       kinds=KINDS, positions_3_0=POS30, positions_2_0=POS20, formats=['zinc', 'json'],
                       grid='2 columns x 3 rows, concrete neighbours of other kinds (number, string with quote, marker, absent cell)',
                       documents='single grid; two-grid documents for str/uri cell')
